@@ -20,6 +20,28 @@ CLAIMED = {
             "extracted model applying the property's two freedoms",
             "C fill/expand skeletons tied by correspondence only; many C-side defects are recorded as known findings",
             "Coq proof (cell-wise optimality) + regenerated band + correspondence"),
+    "C03": ("Coq theorems (partial): any pruning that skips only cells whose optimum exceeds the bound computes all cells "
+            "below the bound exactly (prune_sound), the returned value is 'd if d<=m else inf', and the Euclidean bound "
+            "never cuts the distance where ED is a valid upper bound; the implementation's max_dist/use_pruning results "
+            "(py/C distance, warping_paths, distance matrices) are compared with that expectation computed by the "
+            "extracted model",
+            "partial: that the sc/ec bookkeeping only skips such cells is correspondence, not proof; F06/F07/F05/F27 "
+            "are recorded findings",
+            "Coq proof (PrunedDTW soundness core) + correspondence"),
+    "C09": ("Coq theorems C09_lb_keogh_le_dtw and C09_dtw_le_euclidean for all series/windows/penalties; lb_keogh_model "
+            "uses the index arithmetic regenerated from dtw.lb_keogh; ed.distance/ed_cc/lb_keogh (py and C) compared "
+            "with the extracted models; the sandwich re-checked on implementation values",
+            "exact arithmetic; scalar series for LB_Keogh",
+            "Coq proof (sandwich) + regenerated definitions + correspondence"),
+    "C10": ("Coq theorems: identity, non-negativity, symmetry under swapped psi, monotonicity in window/psi/max_step/"
+            "penalty, window 1 = Euclidean, all for every input; the relations are replayed on both engines and every "
+            "value is compared with the extracted model",
+            "exact arithmetic", "Coq proof (DP monotonicity/transposition) + metamorphic correspondence"),
+    "C11": ("the DTW model and its optimality theorem are stated over vector points (so they are the multivariate "
+            "statement), plus stride addressing and d=1 lemmas; ndim distance, cost matrix and distance matrices of "
+            "both engines are compared with the extracted model, d=1 with the univariate routines",
+            "ndim kernels tied by correspondence; C warping-paths findings F21/F05c/F24 recorded",
+            "Coq proof + correspondence"),
 }
 
 
